@@ -198,6 +198,10 @@ func (bridge *ExprBridge) CompileExpressionWithStreamSQLFunctions(expression str
 			if len(params) != 2 {
 				return false, fmt.Errorf("like_match function requires 2 parameters")
 			}
+			if params[0] == nil {
+				// NULL LIKE p is not true; an error here would abort the whole predicate (x LIKE 'a_' OR x IS NULL)
+				return false, nil
+			}
 			text, ok1 := params[0].(string)
 			pattern, ok2 := params[1].(string)
 			if !ok1 || !ok2 {
@@ -610,8 +614,8 @@ func (bridge *ExprBridge) convertLikeToFunction(field, pattern string) string {
 		// %pattern% -> contains操作符（但不是单独的%）
 		inner := strings.Trim(pattern, "%")
 		if inner == "" {
-			// %% 表示匹配任何字符串
-			return "true"
+			// %% 匹配任何字符串——但 NULL/缺失不是字符串
+			return fmt.Sprintf("(%s != nil)", field)
 		}
 		return fmt.Sprintf("%s contains '%s'", field, inner)
 	} else if strings.HasPrefix(pattern, "%") && len(pattern) > 1 {
@@ -623,8 +627,8 @@ func (bridge *ExprBridge) convertLikeToFunction(field, pattern string) string {
 		prefix := strings.TrimRight(pattern, "%")
 		return fmt.Sprintf("%s startsWith '%s'", field, prefix)
 	} else if pattern == "%" {
-		// 单独的%匹配任何字符串
-		return "true"
+		// 单独的%匹配任何字符串——但 NULL/缺失不是字符串
+		return fmt.Sprintf("(%s != nil)", field)
 	} else if strings.Contains(pattern, "%") || strings.Contains(pattern, "_") {
 		// 复杂模式（如prefix%suffix）或包含单字符通配符，使用自定义的like_match函数
 		return fmt.Sprintf("like_match(%s, '%s')", field, pattern)
